@@ -96,7 +96,7 @@ Step ==
   \/ /\ E.ev = "done"
      /\ pc = "done"
      /\ E.out = ObsClass
-     /\ (\A t \in Range(E.touches) : Predicted(t))
+     /\ (\A t \in Range(E.touches) : Predicted(t)) = TRUE     \* "= TRUE": evaluated as a value, no branching on witnesses
      /\ (IF \E u \in Range(E.touches) : ~ObservedSafe(u) THEN TLCSet(3, TLCGet(3) \cup {tid}) ELSE TRUE)
      /\ UNCHANGED <<vars, cands>>
 
